@@ -146,7 +146,16 @@ pub fn gen_c09(rng: &mut Rng, tier: Tier) -> Result<Value, serde_json::Error> {
         exp,
         nbf,
         iat: rng.bool(),
-        strat: if rng.bool() { Strat::All } else { Strat::Top },
+        // NoSD / Custom keep a user-supplied nbf in the signed payload; Top / All hide it
+        strat: match rng.usize(6) {
+            0 => Strat::All,
+            1 => Strat::Top,
+            2 => Strat::None,
+            _ => {
+                let paths = gen::all_paths(&view, rng);
+                Strat::Custom(paths.into_iter().filter(|_| rng.bool()).map(|p| format!("$.{}", p)).collect())
+            }
+        },
         holder_key,
         decoys: rng.bool(),
         fmt: rand_fmt(rng),
@@ -214,7 +223,7 @@ pub fn execute(scn_v: &Value) -> RunReport {
             Some(*x as f64)
         }
     };
-    let nbf_num: Option<i64> = match &scn.nbf {
+    let nbf_claim: Option<i64> = match &scn.nbf {
         NbfSpec::Absent => None,
         NbfSpec::Rel(d) => {
             claims.insert("nbf".into(), json!(ti + d));
@@ -245,6 +254,17 @@ pub fn execute(scn_v: &Value) -> RunReport {
         rep.sample = Some(json!({"note": "credential not issued", "issue": issued.describe()}));
         return finish(rep, w, nontrivial, states);
     };
+    // The nbf clause is about the *issuer-signed* nbf: under TopLevel / AllLevels the issuer makes a
+    // user-supplied nbf selectively disclosable (C05: only iss, iat, exp always stay visible), and
+    // no verifier can enforce a claim it may never see. The oracle therefore reads nbf from the
+    // signed payload and abstains (counted) when it is hidden.
+    let signed_payload = Message::parse(&sdjwt, scn.fmt).and_then(|m| world::payload_of(&m));
+    let nbf_num: Option<i64> = signed_payload.as_ref().and_then(|p| p.get("nbf")).and_then(Value::as_i64);
+    if nbf_claim.is_some() && nbf_num.is_none() {
+        rep.count("probe.nbf_hidden_by_strategy_unasserted");
+    } else if nbf_claim.is_some() {
+        rep.count("probe.nbf_in_signed_payload");
+    }
     let holder = match w.holder_new(n_h, &sdjwt, scn.fmt) {
         Out::Ok(h) => h,
         o => {
